@@ -556,10 +556,18 @@ fn leaf(cfg: GenCfg) -> BoxedStrategy<Spec> {
   if cfg.sms {
     alts.push((
       4,
-      (t.clone(), abs_map(cfg), 0u8..3u8)
-        .prop_map(move |(text, am, k)| {
+      (t.clone(), abs_map(cfg), 0u8..3u8, 0u8..8u8)
+        .prop_map(move |(text, am, k, f)| {
           let map = concretize_map(&text, &am, cfg.ascii);
-          Spec::Sms { text, name: format!("g{k}.js"), map }
+          // now and then through the full options (no inner map): original_source / remove_original_source
+          // then take part in == and hash only
+          let full = match f {
+            0 => Some((None, true)),
+            1 => Some((Some("orig".to_string()), false)),
+            2 => Some((None, false)),
+            _ => None,
+          };
+          Spec::Sms { text, name: format!("g{k}.js"), map, full }
         })
         .boxed(),
     ));
